@@ -37,11 +37,12 @@ Print Assumptions C20_argument_kinds.
    (fails only for an Any argument tested with exclude_any=False, which is
    narrowed to the tested type; that case is decided by the correspondence). *)
 Theorem C20_eval_unionfree_eq_spec :
-  forall (acc : typ -> member -> bool -> bool) (narrow : typ -> member -> list member) (posof : var -> posn),
+  forall (acc : typ -> member -> bool -> bool) (narrow : typ -> member -> list member) (posof : var -> posn)
+         (isany : member -> bool),
   (forall T m ex, acc T m ex = true -> narrow T m = [m]) ->
   forall (sigma : var -> member) rho body dflt,
   (forall v, get rho v = [sigma v]) ->
-  evaluate acc narrow posof rho body dflt = sem_evaluate acc posof sigma body dflt.
+  evaluate acc narrow posof isany rho body dflt = sem_evaluate acc posof sigma body dflt.
 Proof. exact evaluate_single. Qed.
 Print Assumptions C20_eval_unionfree_eq_spec.
 
@@ -64,8 +65,8 @@ Print Assumptions C20_is_of_type_splits_union.
 (* Union distribution for WHOLE bodies, with no restriction on the body
    ("for a union argument the result is the union of the results for each member
    evaluated separately"): one union argument x with members ms, the other
-   arguments present and union-free, matching members unchanged by narrowing
-   (fails only for an Any member under exclude_any=False).  Covers the and/or
+   arguments present and union-free, no Any member in the union (isany false on ms),
+   matching members unchanged by narrowing.  Covers the and/or
    partial-match bookkeeping (narrowed / remaining varmaps, key intersection in
    unite_varmaps, the repaired early exits) and the fall-through varmaps of the
    repaired visit_block / visit_If (statements after an `if` in which only some
@@ -77,9 +78,9 @@ Print Assumptions C20_union_distributes.
 (* the former counterexample (known finding C20-fallthrough-not-narrowed, now
    repaired): the union call is the union of the member calls *)
 Example C20_fallthrough_repaired :
-  evaluate acc_eq narrow_eq pos_int [(0, [0; 1])] fallthrough_body 4 = ([1; 2], []) /\
-  evaluate acc_eq narrow_eq pos_int [(0, [0])] fallthrough_body 4 = ([1], []) /\
-  evaluate acc_eq narrow_eq pos_int [(0, [1])] fallthrough_body 4 = ([2], []).
+  evaluate acc_eq narrow_eq pos_int no_any [(0, [0; 1])] fallthrough_body 4 = ([1; 2], []) /\
+  evaluate acc_eq narrow_eq pos_int no_any [(0, [0])] fallthrough_body 4 = ([1], []) /\
+  evaluate acc_eq narrow_eq pos_int no_any [(0, [1])] fallthrough_body 4 = ([2], []).
 Proof. exact fallthrough_values. Qed.
 Print Assumptions C20_fallthrough_repaired.
 
@@ -87,10 +88,10 @@ Print Assumptions C20_fallthrough_repaired.
    repaired `or` (members 0 and 1 reach the body, member 2 the else branch;
    types and show_error sites are the unions of the member results). *)
 Example C20_union_or_distributes_example :
-  evaluate acc_eq narrow_eq pos_int [(0, [0; 1; 2])] or_body 4 = ([1; 2; 3], [7]) /\
-  evaluate acc_eq narrow_eq pos_int [(0, [0])] or_body 4 = ([1], []) /\
-  evaluate acc_eq narrow_eq pos_int [(0, [1])] or_body 4 = ([2], [7]) /\
-  evaluate acc_eq narrow_eq pos_int [(0, [2])] or_body 4 = ([3], []).
+  evaluate acc_eq narrow_eq pos_int no_any [(0, [0; 1; 2])] or_body 4 = ([1; 2; 3], [7]) /\
+  evaluate acc_eq narrow_eq pos_int no_any [(0, [0])] or_body 4 = ([1], []) /\
+  evaluate acc_eq narrow_eq pos_int no_any [(0, [1])] or_body 4 = ([2], [7]) /\
+  evaluate acc_eq narrow_eq pos_int no_any [(0, [2])] or_body 4 = ([3], []).
 Proof. exact or_example. Qed.
 Print Assumptions C20_union_or_distributes_example.
 
@@ -137,3 +138,12 @@ Example C20_unionfree_env_inhabited :
   forall v, v <> 0 -> exists m, get [(1, [7]); (2, [5])] v = [m].
 Proof. exact others_unionfree_inhabited. Qed.
 Print Assumptions C20_unionfree_env_inhabited.
+
+(* The hypothesis "no Any member" is necessary: for a variable whose value has an
+   Any member the repaired visit_block skips the fall-through narrowing (a
+   permissive match may have converted that member, so membership cannot be
+   tracked), and the un-narrowed fall-through gives a strict superset there
+   (known finding C20-any-union-fallthrough). *)
+Theorem C20_union_distributes_refuted_without_noany : ~ union_distributes_without_noany.
+Proof. exact union_distributes_refuted_without_noany. Qed.
+Print Assumptions C20_union_distributes_refuted_without_noany.
